@@ -28,7 +28,7 @@ URIs == {x[1] \o x[2] \o x[3] \o x[4] \o x[5] :
            x \in Prefixes5 \X Subs \X (IF Tier = "quick" THEN UsersQ ELSE UsersT) \X Tails \X ExtsU} \cup Corners
 
 Full == {"bzr", "cvs", "darcs", "git", "hg", "svn", "tar"}
-BinSets == IF Tier = "quick" THEN {Full} ELSE {Full, Full \ {"git"}, Full \ {"tar", "svn"}, {}}
+BinSets == IF Tier = "quick" THEN {Full} ELSE {Full, Full \ {"git"}, Full \ {"tar", "svn", "hg"}}
 SelCase(u, b, ssh) == [ev |-> "select", uri |-> u, bins |-> SetToSeq(b), ssh |-> ssh]
 SelectCases == {SelCase(u, b, TRUE) : u \in URIs, b \in BinSets}
                \cup {SelCase(u, Full, FALSE) : u \in {v \in URIs : StartsWith(v, Tcvsp)}}
@@ -37,7 +37,7 @@ MarkerSets == {m \in SUBSET Markers : ".git/svn" \in m => ".git" \in m}
 DetBins  == IF Tier = "quick" THEN {Full, Full \ {"git"}} ELSE {Full, Full \ {"git"}, Full \ {"bzr"}, Full \ {"hg", "cvs"}}
 DetInfos == IF Tier = "quick" THEN {{}, {"bzr", "svn"}} ELSE SUBSET {"bzr", "svn"}
 Owners   == IF Tier = "quick" THEN {<<"root", FALSE>>, <<"nobody", FALSE>>, <<"nobody", TRUE>>, <<"unknown", TRUE>>}
-            ELSE {"root", "nobody", "unknown"} \X BOOLEAN
+            ELSE {<<"root", FALSE>>, <<"nobody", FALSE>>, <<"nobody", TRUE>>, <<"unknown", TRUE>>, <<"unknown", FALSE>>}
 DetectCases == {[ev |-> "detect", markers |-> SetToSeq(x[1]), bins |-> SetToSeq(x[2]), info |-> SetToSeq(x[3]),
                  owner |-> x[4][1], usersync |-> x[4][2]] : x \in MarkerSets \X DetBins \X DetInfos \X Owners}
 
